@@ -329,6 +329,35 @@ def extract():
             for ln, kind, c, hs in _sites(f):
                 if c != "reraise":
                     rsites.append((f"{cls or mod}.{fn}", kind, c, hs))
+    # the reconnect path of Client.service: transmit() with whatever handlers Client.service has around it
+    csites = []
+    for mod, cls, fn in [("clienting", "Client", "transmit"), ("clienting", "Requester", "rebuild"), ("clienting", "Requester", "reinit"),
+                         ("clienting", "Requester", "build"), ("httping", None, "packHeader"), ("httping", None, "updateQargsQuery")]:
+        f = _find(trees[mod], cls, fn)
+        if f is not None:
+            for ln, kind, c, hs in _sites(f):
+                if c != "reraise":
+                    csites.append((f"{cls or mod}.{fn}", kind, c, hs))
+    svc = _find(trees["clienting"], "Client", "service")
+    chand = set()
+    if svc is not None:
+        def walk2(node, handlers):
+            if isinstance(node, ast.Try):
+                h2 = [c for h in node.handlers for c in _handler_names(h)]
+                for b in node.body:
+                    walk2(b, handlers + h2)
+                for h in node.handlers:
+                    for b in h.body:
+                        walk2(b, handlers)
+                for b in node.orelse + node.finalbody:
+                    walk2(b, handlers)
+                return
+            if isinstance(node, ast.Call) and isinstance(node.func, ast.Attribute) and node.func.attr == "transmit":
+                chand.update(handlers)
+            for ch in ast.iter_child_nodes(node):
+                walk2(ch, handlers)
+        for st in svc.body:
+            walk2(st, [])
     known = set(cn)
 
     def cls_ok(c):
@@ -372,6 +401,12 @@ def extract():
     L.append("def redirectSites : List (String × String × String × List String) := [\n  " + ",\n  ".join(
         f"({_lean_str(fn)}, {_lean_str(k)}, {_lean_str(cls_ok(c))}, [" + ", ".join(_lean_str(cls_ok(h)) for h in hs) + "])"
         for fn, k, c, hs in rsites) + "]")
+    L.append("/-- raise sites on the reconnect path of Client.service (transmit and what it calls) -/")
+    L.append("def reconnectSites : List (String × String × String × List String) := [\n  " + ",\n  ".join(
+        f"({_lean_str(fn)}, {_lean_str(k)}, {_lean_str(cls_ok(c))}, [" + ", ".join(_lean_str(cls_ok(h)) for h in hs) + "])"
+        for fn, k, c, hs in csites) + "]")
+    L.append("/-- handler classes Client.service has around transmit() -/")
+    L.append("def reconnectHandlers : List String := [" + ", ".join(_lean_str(cls_ok(c)) for c in sorted(chand)) + "]")
     L.append("/-- classes named by the except clauses of Parsent.parseMessage around parseHead / parseBody -/")
     L.append("def messageHandlers : List String := [" + ", ".join(_lean_str(cls_ok(c)) for c in wrap) + "]")
     L.append("/-- (service loop, callee, handler classes around the call) -/")
